@@ -239,7 +239,15 @@ pub fn assemble<S>(
             assembly.decls.as_mut().unwrap())?;
 
         #[cfg(hlorenzi_customasm_verif)]
-        crate::verif::emit("defined", vec![]);
+        crate::verif::emit("defined", vec![
+            ("data_sizes", crate::verif::V::L(assembly.defs.as_ref().unwrap().data_elems.defs.iter()
+                .map(|d| match d
+                {
+                    Some(d) => crate::verif::V::I(d.encoding.size.unwrap_or(0) as i128),
+                    None => crate::verif::V::I(-1),
+                })
+                .collect())),
+        ]);
 
         matcher::match_all(
             report,
